@@ -221,9 +221,50 @@ def case_config_helpers(**p):
   return case
 
 
+def _dtype_sweep():
+  """the same data and weights in every array dtype a caller may hand over (values are what the symbolic cases cover;
+  the dtype is a finite enumeration, executed on the real function)"""
+  from tensorflow_lattice.python import premade_lib, pwl_calibration_lib
+  vals = np.array([0.0, 0.0, 1.0, 1.0, 2.0, 3.0, 3.0, 5.0, 8.0, 8.0])
+  wts = np.array([1, 2, 1, 1, 3, 1, 1, 2, 1, 1])
+  fails = []
+  n = 0
+  for vdt in (np.float64, np.float32, np.int64, np.int32):
+    for wdt in (None, np.float64, np.float32, np.int64, np.int32, np.bool_):
+      for mode in ('quantiles', 'uniform'):
+        for red in ('mean', 'sum'):
+          for clip in ((None, None), (1.0, 6.0)):
+            w = None if wdt is None else (wts > 1).astype(wdt) + (0 if wdt is np.bool_ else wts.astype(wdt))
+            n += 1
+            try:
+              ks = premade_lib.compute_keypoints(vals.astype(vdt), num_keypoints=4, keypoints=mode, clip_min=clip[0], clip_max=clip[1],
+                                                 weights=w, weight_reduction=red)
+              ks = [float(k) for k in ks]
+              if any(b_ <= a for a, b_ in zip(ks[:-1], ks[1:])) or not np.all(np.isfinite(ks)):
+                fails.append((vdt.__name__, getattr(wdt, '__name__', None), mode, red, clip, ks))
+              else:
+                pwl_calibration_lib.verify_hyperparameters(input_keypoints=ks)
+            except Exception as e:  # pylint: disable=broad-except
+              fails.append((vdt.__name__, getattr(wdt, '__name__', None), mode, red, clip, '%s: %s' % (type(e).__name__, str(e)[:80])))
+  return n, fails
+
+
+def case_dtype_sweep(**p):
+  from tensorflow_lattice.python import premade_lib
+  case = Case(PROP, p['name'], {})
+  case.encoded(premade_lib.compute_keypoints)
+  n, fails = _dtype_sweep()
+  case.record('keypoints-valid-for-every-array-dtype', 'sat' if fails else 'unsat', kind='structural', witness={}, replay=dict(fn='dtype-sweep'),
+              sig=dict(query='dtype', what=str(fails[:1])[:100]), note='%d dtype/mode combinations executed; failing: %s' % (n, fails[:2]))
+  return case
+
+
 def replay(r):
   from tensorflow_lattice.python import premade_lib, pwl_calibration_lib
   rp = r['replay']
+  if rp['fn'] == 'dtype-sweep':
+    n, fails = _dtype_sweep()
+    return dict(reproduced=bool(fails), detail=dict(combinations=n, failing=[str(f)[:200] for f in fails[:5]]))
   p = rp['params']
   if rp['fn'] == 'helpers':
     c = case_config_helpers(**p)
@@ -283,6 +324,7 @@ def cases(tier, seed):
   add(n=2, k=3, mode='quantiles', weights=True, clip=True, required=False, budget=400)
   add(n=4, k=4, mode='quantiles', weights=True, reduction='sum', sorted_distinct=True, budget=400, max_paths=20000)
   add(n=5, k=4, mode='quantiles', weights=True, sorted_distinct=True, required=False, budget=400, max_paths=20000)
+  out.append(dict(name='dtype-sweep', fn='case_dtype_sweep', params=dict(name='dtype-sweep'), cap=300))
   out.append(dict(name='config-helpers', fn='case_config_helpers', params=dict(name='config-helpers', seed=seed), cap=300))
   if tier == 'thorough':
     add(n=4, k=3, mode='quantiles', weights=True, required=False, budget=1500, max_paths=40000, cap=2400)
